@@ -70,13 +70,16 @@ TARGETS = [
     ("lazy_auditory", "gammatone", "klapuri", "gammatone_klapuri", ("se", "se"), ".klapuri", None),
 ]
 NOT_TRANSLATED = [
-    ("gammatone.sampled", "loop `for unused in xrange(eta - 1): ... .diff(mul_after=-z)` over ZFilter objects and a division "
-                          "by a MEASURED gain (abs(freq_response)): needs ZFilter.diff / freq_response, outside the subset; "
-                          "hand model + differential tie + the closed-form theorems"),
+    ("ZFilter.diff (the loop `for unused in xrange(n): ...` of lazy_filters.py that gammatone.sampled calls)",
+     "loop over ZFilter / Poly objects: hand model diffStep / diffNum of ALV/Model/C13.lean (the translated body of "
+     "gammatone.sampled calls it as `diffNum num den (eta - 1)`) + differential tie + the closed-form theorems; the measured gain "
+     "abs(f.freq_response(freq)) likewise is the hand model `normalise` / `gainAt`"),
     ("gammatone.slaney", "list comprehensions over +-1 signs, CascadeFilter of quotients divided by abs(f.freq_response(freq)): "
                          "outside the subset; hand model + differential tie"),
-    ("erb.gm90 / erb.mg83 / gammatone_erb_constants", "no thub; scalar formulas with the `Hz is None` / `freq < 7` refusal and "
-                                                       "an @elementwise decorator; hand model (ALV/Model/C13Call.lean) + tie"),
+    ("@elementwise of erb (a container / Stream of frequencies)", "decorator of another module: the translator checks that it "
+                                                                   "is @elementwise(<first parameter>, 0); its meaning "
+                                                                   "(erbCallList / erbCallLazy of ALV/Model/C13Call.lean) "
+                                                                   "is a hand model + differential tie"),
     ("StrategyDict dispatch, aliases, defaults", "object identity facts of the running StrategyDicts, checked by the extra "
                                                  "checks strategies:* / default:* / alias:* on the imported module"),
     ("ZFilter / Poly / Stream operator plumbing, thub / StreamTeeHub", "classes of other slices (C04-C06, C01-C03); the "
@@ -532,15 +535,433 @@ def translate_one(fname, node, dname, key, lean, kinds, known):
     return text, info
 
 
+# ------------------------------------------------------------------------------------------------
+# scalar functions of lazy_auditory.py: erb.gm90 / erb.mg83 / gammatone_erb_constants
+# ------------------------------------------------------------------------------------------------
+# A typed expression translation into the vocabulary of ALV/Model/C13.lean (generic over [TrigField α]):
+#   kind "nat"  — Python ints built from the order `n`, non-negative int literals, + - * **, factorial(...):
+#                 kept in Lean's Nat as long as Python keeps an int (`-` is Nat's truncated subtraction: trusted
+#                 to agree with Python where Python's value is non-negative, i.e. n >= 1);
+#   kind "real" — everything a float touches.  An int meeting a float (or a true division) is converted:
+#                 an int LITERAL k -> `ofInt k`, any other int expression e -> `ofNat (e)`;
+#                 a float literal -> `ofRat p q` with p / q the shortest decimal that reads back as the literal
+#                 (`1.` -> `ofInt 1`, `.5` -> `half`); `int ** -int` -> `ofInt 1 / ofNat (a ^ e)`;
+#                 `x ** y` -> `pow x y`; `pi` -> `pi`.
+SCALAR_RESERVED = {"z", "cos", "sin", "sqrt", "exp", "mk", "normalise", "diffNum", "pi", "pow", "ofInt", "ofNat", "ofRat", "half", "factorial", "fun", "let", "match", "if", "then", "else",
+                   "at", "from", "end", "def", "α"}
+
+
+class SX:
+    def __init__(self, kind, text, lit=None, atom=False):
+        self.kind, self.text, self.lit, self.atom = kind, text, lit, atom
+
+    def p(self):
+        return self.text if self.atom else "(" + self.text + ")"
+
+
+def _real_lit(v, where):
+    import decimal
+    if v != v or v in (float("inf"), float("-inf")) or v < 0:
+        raise TranslationError(where + ": float literal outside the subset: %r" % v)
+    d = decimal.Decimal(repr(v)).normalize()
+    sign, digits, exp = d.as_tuple()
+    num = int("".join(map(str, digits)))
+    if exp >= 0:
+        return SX("real", "ofInt %d" % (num * 10 ** exp))
+    if (num, exp) == (5, -1):
+        return SX("real", "half", atom=True)
+    return SX("real", "ofRat %d %d" % (num, 10 ** -exp))
+
+
+def _coerce(x):
+    if x.kind == "real":
+        return x
+    if x.lit is not None:
+        return SX("real", "ofInt %d" % x.lit)
+    return SX("real", "ofNat " + x.p())
+
+
+def scalar_expr(node, env, where):
+    def rec(n):
+        return scalar_expr(n, env, where)
+    if isinstance(node, ast.Constant):
+        v = node.value
+        if isinstance(v, bool) or not isinstance(v, (int, float)):
+            raise TranslationError(where + ": literal outside the subset: %r" % (v,))
+        if isinstance(v, int):
+            if v < 0:
+                raise TranslationError(where + ": negative int literal")
+            return SX("nat", str(v), lit=v, atom=True)
+        return _real_lit(v, where)
+    if isinstance(node, ast.Name):
+        if node.id in env:
+            return env[node.id]
+        if node.id == "pi":
+            return SX("real", "pi", atom=True)
+        raise TranslationError(where + ": unknown name " + node.id)
+    if isinstance(node, ast.UnaryOp) and isinstance(node.op, ast.USub):
+        x = rec(node.operand)
+        if x.kind != "real":
+            raise TranslationError(where + ": negated int outside an exponent")
+        return SX("real", "-" + x.p())
+    if isinstance(node, ast.Call):
+        if (isinstance(node.func, ast.Name) and node.func.id == "factorial" and "factorial" not in env
+                and len(node.args) == 1 and not node.keywords):
+            x = rec(node.args[0])
+            if x.kind != "nat":
+                raise TranslationError(where + ": factorial of a float")
+            return SX("nat", "factorial " + x.p())
+        if (isinstance(node.func, ast.Name) and node.func.id in ("cos", "sin", "sqrt", "exp") and node.func.id not in env
+                and len(node.args) == 1 and not node.keywords):
+            return SX("real", "%s %s" % (node.func.id, _coerce(rec(node.args[0])).p()))
+        raise TranslationError(where + ": call outside the subset: " + ast.unparse(node)[:60])
+    if isinstance(node, ast.BinOp):
+        if isinstance(node.op, ast.Pow):
+            a = rec(node.left)
+            if (a.kind == "nat" and isinstance(node.right, ast.UnaryOp) and isinstance(node.right.op, ast.USub)):
+                e = rec(node.right.operand)
+                if e.kind != "nat":
+                    raise TranslationError(where + ": int ** -float")
+                return SX("real", "ofInt 1 / ofNat (%s ^ %s)" % (a.p(), e.p()))
+            e = rec(node.right)
+            if a.kind == "nat" and e.kind == "nat":
+                return SX("nat", "%s ^ %s" % (a.p(), e.p()))
+            return SX("real", "pow %s %s" % (_coerce(a).p(), _coerce(e).p()))
+        ops = {ast.Add: "+", ast.Sub: "-", ast.Mult: "*", ast.Div: "/"}
+        if type(node.op) not in ops:
+            raise TranslationError(where + ": operator outside the subset: " + ast.unparse(node)[:60])
+        a, b = rec(node.left), rec(node.right)
+        if a.kind == "nat" and b.kind == "nat" and not isinstance(node.op, ast.Div):
+            return SX("nat", "%s %s %s" % (a.p(), ops[type(node.op)], b.p()))
+        return SX("real", "%s %s %s" % (_coerce(a).p(), ops[type(node.op)], _coerce(b).p()))
+    raise TranslationError(where + ": expression outside the subset: " + ast.unparse(node)[:60])
+
+
+def scalar_tail(stmts, env, where, pair):
+    """straight-line `name = expr` statements and a final `return expr` -> the lines of a Lean `let` chain"""
+    env = dict(env)
+    lines = []
+    if not stmts or not isinstance(stmts[-1], ast.Return) or stmts[-1].value is None:
+        raise TranslationError(where + ": the body must end in `return <expression>`")
+    for s in stmts[:-1]:
+        if not (isinstance(s, ast.Assign) and len(s.targets) == 1 and isinstance(s.targets[0], ast.Name)):
+            raise TranslationError(where + ": statement outside the subset: " + ast.unparse(s)[:60])
+        nm = s.targets[0].id
+        if nm in SCALAR_RESERVED or not nm.isidentifier() or not nm.isascii():
+            raise TranslationError(where + ": local name " + nm)
+        x = scalar_expr(s.value, env, where)
+        lines.append("  let %s := %s" % (nm, x.text))
+        env[nm] = SX(x.kind, nm, atom=True)
+    r = stmts[-1].value
+    if pair:
+        if not (isinstance(r, ast.Tuple) and len(r.elts) == 2):
+            raise TranslationError(where + ": the result must be a pair")
+        a, b = (_coerce(scalar_expr(e, env, where)) for e in r.elts)
+        lines.append("  (%s,\n   %s)" % (a.text, b.text))
+    else:
+        lines.append("  " + _coerce(scalar_expr(r, env, where)).text)
+    return lines
+
+
+def _strip_doc(body):
+    body = list(body)
+    if body and isinstance(body[0], ast.Expr) and isinstance(body[0].value, ast.Constant) and isinstance(body[0].value.value, str):
+        body = body[1:]
+    return body
+
+
+def _src_doc(head, body):
+    src = " ".join("; ".join(ast.unparse(s) for s in body).split())
+    return "/-- `%s`: `%s` -/" % (head, src.replace("-/", "- /"))
+
+
+ERB_KEYS = [("gm90", ".gm90"), ("mg83", ".mg83")]       # strategy key -> constructor of ALV.C13.ErbStrategy
+
+
+def translate_erb(found, tree):
+    """the strategies of `erb` (all of them, in the order of their registration: the first one is the default of a
+    StrategyDict) -> `erb_<key>_tail` (the formula), `erb_<key>` (the call with the `Hz is None` branch),
+    `erb_default`, `erb_call`"""
+    out, infos = [], []
+    regs = [(k, v) for k, v in found.items() if k[0] == "erb"]
+    regs.sort(key=lambda kv: kv[1][0].lineno)
+    if [k[1] for k, _ in regs] != [k for k, _ in ERB_KEYS]:
+        raise TranslationError("lazy_auditory: the strategies of erb are %r, the model has %r (in this order; the first "
+                               "is the default)" % ([k[1] for k, _ in regs], [k for k, _ in ERB_KEYS]))
+    for (dname, key), (node, names) in regs:
+        where = "lazy_auditory erb." + key
+        decs = node.decorator_list
+        a = node.args
+        if (a.vararg or a.kwarg or a.kwonlyargs or a.posonlyargs or len(a.args) != 2 or len(a.defaults) != 1
+                or not (isinstance(a.defaults[0], ast.Constant) and a.defaults[0].value is None)):
+            raise TranslationError("%s: parameter list (%s) is not (freq, Hz=None)" % (where, ast.unparse(a)))
+        freq, hz = (x.arg for x in a.args)
+        if freq == hz or {freq, hz} & SCALAR_RESERVED:
+            raise TranslationError(where + ": parameter names")
+        if len(decs) != 3 or not (isinstance(decs[0], ast.Call) and isinstance(decs[0].func, ast.Attribute)
+                                  and decs[0].func.attr == "strategy"):
+            raise TranslationError(where + ": decorators must be strategy / elementwise / format_docstring")
+        d1, d2 = decs[1], decs[2]
+        if not (isinstance(d1, ast.Call) and isinstance(d1.func, ast.Name) and d1.func.id == "elementwise" and not d1.keywords
+                and len(d1.args) == 2 and all(isinstance(x, ast.Constant) for x in d1.args)
+                and d1.args[0].value == freq and d1.args[1].value == 0 and not isinstance(d1.args[1].value, bool)):
+            raise TranslationError("%s: expected @elementwise(%r, 0), found %s" % (where, freq, ast.unparse(d1)[:60]))
+        if not (isinstance(d2, ast.Call) and isinstance(d2.func, ast.Name) and d2.func.id == "format_docstring"):
+            raise TranslationError("%s: decorator outside the subset: %s" % (where, ast.unparse(d2)[:60]))
+        body = _strip_doc(node.body)
+        # if Hz is None: if freq < K: raise ValueError(...); Hz = U
+        g = body[0] if body else None
+        ok = (isinstance(g, ast.If) and not g.orelse and isinstance(g.test, ast.Compare) and len(g.test.ops) == 1
+              and isinstance(g.test.ops[0], ast.Is) and isinstance(g.test.left, ast.Name) and g.test.left.id == hz
+              and isinstance(g.test.comparators[0], ast.Constant) and g.test.comparators[0].value is None
+              and len(g.body) == 2)
+        if not ok:
+            raise TranslationError(where + ": the body must start with `if %s is None:` (two statements, no else)" % hz)
+        r, asg = g.body
+        ok = (isinstance(r, ast.If) and not r.orelse and len(r.body) == 1 and isinstance(r.body[0], ast.Raise)
+              and isinstance(r.body[0].exc, ast.Call) and isinstance(r.body[0].exc.func, ast.Name)
+              and r.body[0].exc.func.id == "ValueError" and r.body[0].cause is None
+              and isinstance(r.test, ast.Compare) and len(r.test.ops) == 1 and isinstance(r.test.ops[0], (ast.Lt, ast.Gt)))
+        if not ok:
+            raise TranslationError(where + ": expected `if <a> < <b>: raise ValueError(...)` as the first statement of the "
+                                           "None branch")
+        env = {freq: SX("real", freq, atom=True)}
+        lo, hi = r.test.left, r.test.comparators[0]
+        if isinstance(r.test.ops[0], ast.Gt):
+            lo, hi = hi, lo
+        lo, hi = (_coerce(scalar_expr(x, env, where)) for x in (lo, hi))
+        if not (isinstance(asg, ast.Assign) and len(asg.targets) == 1 and isinstance(asg.targets[0], ast.Name)
+                and asg.targets[0].id == hz):
+            raise TranslationError(where + ": expected `%s = <number>` as the second statement of the None branch" % hz)
+        unit = _coerce(scalar_expr(asg.value, {}, where))
+        env[hz] = SX("real", hz, atom=True)
+        lines = scalar_tail(body[1:], env, where, pair=False)
+        out.append("%s\ndef erb_%s_tail (%s %s : α) : α :=\n%s\n\n" % (
+            _src_doc("erb.%s(%s) after the branch %s is None" % (key, ast.unparse(a), hz), body[1:]), key, freq, hz,
+            "\n".join(lines)))
+        out.append("%s\ndef erb_%s [LtTest α] (%s : α) (%s : Option α) : Except Unit α :=\n  match %s with\n"
+                   "  | none => if LtTest.lt %s %s then .error () else .ok (erb_%s_tail %s %s)\n"
+                   "  | some %s => .ok (erb_%s_tail %s %s)\n\n" % (
+                       _src_doc("erb.%s(%s), the branch %s is None" % (key, ast.unparse(a), hz), [g]), key, freq, hz, hz,
+                       lo.p(), hi.p(), key, freq, unit.p(), hz, key, freq, hz))
+        infos.append({"function": "erb." + key, "lean": "ALV.Gen.C13.erb_%s / erb_%s_tail" % (key, key), "names": names})
+    out.append("/-- the strategy table of `erb`, in the order of the registrations -/\n"
+               "def erb_strategy [LtTest α] : ErbStrategy → α → Option α → Except Unit α\n"
+               + "".join("  | %s => erb_%s\n" % (c, k) for k, c in ERB_KEYS) + "\n")
+    out.append("/-- the default of a StrategyDict is the strategy registered first -/\n"
+               "def erb_default : ErbStrategy := %s\n\n" % ERB_KEYS[0][1])
+    out.append("/-- `erb[strategy](freq, Hz)` / `erb(freq, Hz)` -/\n"
+               "def erb_call [LtTest α] (st : Option ErbStrategy) : α → Option α → Except Unit α :=\n"
+               "  erb_strategy (st.getD erb_default)\n\n")
+    return "".join(out), infos
+
+
+def translate_erb_constants(tree):
+    nodes = [n for n in tree.body if isinstance(n, ast.FunctionDef) and n.name == "gammatone_erb_constants"]
+    where = "lazy_auditory gammatone_erb_constants"
+    if len(nodes) != 1:
+        raise TranslationError(where + ": %d definitions" % len(nodes))
+    node = nodes[0]
+    a = node.args
+    if node.decorator_list or a.vararg or a.kwarg or a.kwonlyargs or a.posonlyargs or len(a.args) != 1 or a.defaults:
+        raise TranslationError("%s: signature (%s) / decorators outside the subset" % (where, ast.unparse(a)))
+    n = a.args[0].arg
+    if n in SCALAR_RESERVED:
+        raise TranslationError(where + ": parameter name")
+    body = _strip_doc(node.body)
+    lines = scalar_tail(body, {n: SX("nat", n, atom=True)}, where, pair=True)
+    text = "%s\ndef gammatone_erb_constants (%s : Nat) : α × α :=\n%s\n\n" % (
+        _src_doc("gammatone_erb_constants(%s)" % ast.unparse(a), body), n, "\n".join(lines))
+    return text, [{"function": "gammatone_erb_constants", "lean": "ALV.Gen.C13.gammatone_erb_constants"}]
+
+
+# ------------------------------------------------------------------------------------------------
+# gammatone.sampled: scalars, polynomials in z ** -k (dense coefficient lists), the .diff call, the two gain
+# normalisations, the cascade — in the vocabulary mk / diffNum / normalise of ALV/Model/C13.lean
+# ------------------------------------------------------------------------------------------------
+def _is_zpow(node):
+    """`z ** -k` (k a non-negative int literal) -> k"""
+    if (isinstance(node, ast.BinOp) and isinstance(node.op, ast.Pow) and isinstance(node.left, ast.Name) and node.left.id == "z"
+            and isinstance(node.right, ast.UnaryOp) and isinstance(node.right.op, ast.USub)
+            and isinstance(node.right.operand, ast.Constant) and type(node.right.operand.value) is int
+            and node.right.operand.value >= 0):
+        return node.right.operand.value
+    return None
+
+
+def poly_expr(node, env, where):
+    """sums / differences of scalars and `scalar * z ** -k` terms -> {k: Lean text of the coefficient}; None when the
+    expression has no z term (a plain scalar)"""
+    if isinstance(node, ast.BinOp) and isinstance(node.op, (ast.Add, ast.Sub)):
+        a, b = poly_expr(node.left, env, where), poly_expr(node.right, env, where)
+        if isinstance(node.op, ast.Sub):
+            b = {k: "-(%s)" % v for k, v in b.items()}
+        if set(a) & set(b):
+            raise TranslationError(where + ": two terms of the same delay in " + ast.unparse(node)[:60])
+        a = dict(a)
+        a.update(b)
+        return a
+    if isinstance(node, ast.BinOp) and isinstance(node.op, ast.Mult) and _is_zpow(node.right) is not None:
+        return {_is_zpow(node.right): _coerce(scalar_expr(node.left, env, where)).text}
+    if _is_zpow(node) is not None:
+        return {_is_zpow(node): "ofInt 1"}
+    return {0: _coerce(scalar_expr(node, env, where)).text}
+
+
+def _dense_list(p):
+    return "[" + ", ".join(p.get(k, "ofInt 0") for k in range(max(p) + 1)) + "]"
+
+
+def translate_gammatone_sampled(found):
+    where = "lazy_auditory gammatone.sampled"
+    if ("gammatone", "sampled") not in found:
+        raise TranslationError(where + ": not found")
+    node, names = found[("gammatone", "sampled")]
+    decs = node.decorator_list
+    if len(decs) != 2 or not (isinstance(decs[1], ast.Call) and isinstance(decs[1].func, ast.Name)
+                              and decs[1].func.id == "format_docstring"):
+        raise TranslationError(where + ": decorators must be strategy / format_docstring")
+    a = node.args
+    if a.vararg or a.kwarg or a.kwonlyargs or a.posonlyargs or len(a.args) != 4 or len(a.defaults) != 2:
+        raise TranslationError("%s: parameter list (%s) is not (freq, bandwidth, phase=<int>, eta=<int>)" % (where, ast.unparse(a)))
+    freq, bw, phase, eta = (x.arg for x in a.args)
+    if len({freq, bw, phase, eta}) != 4 or {freq, bw, phase, eta} & SCALAR_RESERVED:
+        raise TranslationError(where + ": parameter names")
+    dph, deta = a.defaults
+    if not (isinstance(dph, ast.Constant) and type(dph.value) is int and dph.value >= 0
+            and isinstance(deta, ast.Constant) and type(deta.value) is int and deta.value >= 1):
+        raise TranslationError(where + ": defaults outside the subset: " + ast.unparse(a))
+    body = _strip_doc(node.body)
+    g = body[0] if body else None
+    if not (isinstance(g, ast.Assert) and g.msg is None and ast.unparse(g.test) == eta + " >= 1"):
+        raise TranslationError(where + ": the body must start with `assert %s >= 1` (the order is a Nat, `%s - 1` truncated)"
+                               % (eta, eta))
+    env = {freq: SX("real", freq, atom=True), bw: SX("real", bw, atom=True), phase: SX("real", phase, atom=True),
+           eta: SX("nat", eta, atom=True)}
+    kinds = {}          # local name -> "poly" | "diffed" | "filt"
+    diffed = {}
+    lines = []
+
+    def fresh(nm):
+        if nm in SCALAR_RESERVED or not nm.isidentifier() or not nm.isascii() or nm in (freq, bw, phase, eta):
+            raise TranslationError(where + ": local name " + nm)
+
+    def polyname(n):
+        if not (isinstance(n, ast.Name) and kinds.get(n.id) == "poly"):
+            raise TranslationError(where + ": expected a polynomial variable, found " + ast.unparse(n)[:40])
+        return n.id
+
+    stmts = body[1:]
+    if not stmts or not isinstance(stmts[-1], ast.Return):
+        raise TranslationError(where + ": the body must end in a return")
+    for st in stmts[:-1]:
+        if isinstance(st, ast.AugAssign):
+            # f /= abs(f.freq_response(x))
+            v = st.value
+            ok = (isinstance(st.op, ast.Div) and isinstance(st.target, ast.Name) and kinds.get(st.target.id) == "filt"
+                  and isinstance(v, ast.Call) and isinstance(v.func, ast.Name) and v.func.id == "abs" and len(v.args) == 1
+                  and not v.keywords and isinstance(v.args[0], ast.Call) and isinstance(v.args[0].func, ast.Attribute)
+                  and v.args[0].func.attr == "freq_response" and isinstance(v.args[0].func.value, ast.Name)
+                  and v.args[0].func.value.id == st.target.id and len(v.args[0].args) == 1 and not v.args[0].keywords)
+            if not ok:
+                raise TranslationError(where + ": statement outside the subset: " + ast.unparse(st)[:70])
+            x = scalar_expr(v.args[0].args[0], env, where)
+            if x.kind != "real":
+                raise TranslationError(where + ": freq_response of an int")
+            lines.append("  let %s := normalise %s %s" % (st.target.id, st.target.id, x.p()))
+            continue
+        if not (isinstance(st, ast.Assign) and len(st.targets) == 1 and isinstance(st.targets[0], ast.Name)):
+            raise TranslationError(where + ": statement outside the subset: " + ast.unparse(st)[:70])
+        nm, v = st.targets[0].id, st.value
+        fresh(nm)
+        for d in (env, kinds):
+            d.pop(nm, None)
+        if (isinstance(v, ast.Call) and isinstance(v.func, ast.Attribute) and v.func.attr == "diff"):
+            # (num / den).diff(n=<nat>, mul_after=-z)
+            q = v.func.value
+            kw = {k.arg: k.value for k in v.keywords}
+            if not (not v.args and set(kw) == {"n", "mul_after"} and ast.unparse(kw["mul_after"]) == "-z"
+                    and isinstance(q, ast.BinOp) and isinstance(q.op, ast.Div)):
+                raise TranslationError(where + ": expected (<num> / <den>).diff(n=..., mul_after=-z)")
+            n = scalar_expr(kw["n"], env, where)
+            if n.kind != "nat":
+                raise TranslationError(where + ": diff(n=<float>)")
+            diffed[nm] = (polyname(q.left), polyname(q.right), n)
+            kinds[nm] = "diffed"
+            continue
+        if isinstance(v, ast.BinOp) and isinstance(v.op, ast.Div) and isinstance(v.right, ast.Name) and kinds.get(v.right.id) == "poly":
+            l = v.left
+            if (isinstance(l, ast.Call) and isinstance(l.func, ast.Name) and l.func.id == "ZFilter" and len(l.args) == 1
+                    and not l.keywords and isinstance(l.args[0], ast.Attribute) and l.args[0].attr == "numpoly"
+                    and isinstance(l.args[0].value, ast.Name) and kinds.get(l.args[0].value.id) == "diffed"):
+                dn, dd, n = diffed[l.args[0].value.id]
+                lines.append("  let %s := mk (diffNum %s %s %s) %s" % (nm, dn, dd, n.p(), v.right.id))
+            else:
+                x = _coerce(scalar_expr(l, env, where))
+                lines.append("  let %s := mk [%s] %s" % (nm, x.text, v.right.id))
+            kinds[nm] = "filt"
+            continue
+        pz = poly_expr(v, env, where)
+        if set(pz) == {0}:
+            x = scalar_expr(v, env, where)
+            lines.append("  let %s := %s" % (nm, x.text))
+            env[nm] = SX(x.kind, nm, atom=True)
+        else:
+            lines.append("  let %s : List α := %s" % (nm, _dense_list(pz)))
+            kinds[nm] = "poly"
+    # return CascadeFilter([f0] + [fn] * (<nat>))
+    r = stmts[-1].value
+    ok = (isinstance(r, ast.Call) and isinstance(r.func, ast.Name) and r.func.id == "CascadeFilter" and len(r.args) == 1
+          and not r.keywords and isinstance(r.args[0], ast.BinOp) and isinstance(r.args[0].op, ast.Add))
+    if ok:
+        l, m = r.args[0].left, r.args[0].right
+        ok = (isinstance(l, ast.List) and len(l.elts) == 1 and isinstance(l.elts[0], ast.Name) and kinds.get(l.elts[0].id) == "filt"
+              and isinstance(m, ast.BinOp) and isinstance(m.op, ast.Mult) and isinstance(m.left, ast.List) and len(m.left.elts) == 1
+              and isinstance(m.left.elts[0], ast.Name) and kinds.get(m.left.elts[0].id) == "filt")
+    if not ok:
+        raise TranslationError(where + ": expected `return CascadeFilter([f0] + [fn] * (<count>))`")
+    cnt = scalar_expr(m.right, env, where)
+    if cnt.kind != "nat":
+        raise TranslationError(where + ": list repeated a float number of times")
+    lines.append("  %s :: List.replicate %s %s" % (l.elts[0].id, cnt.p(), m.left.elts[0].id))
+    text = "%s\ndef gammatone_sampled [ZeroTest α] (%s %s %s : α) (%s : Nat) : List (Coefs α) :=\n%s\n\n" % (
+        _src_doc("gammatone.sampled(%s)" % ast.unparse(a), body), freq, bw, phase, eta, "\n".join(lines))
+    text += ("/-- the defaults of the `def` line: `%s` -/\n"
+             "def gammatone_sampled_call [ZeroTest α] (%s %s : α) (%s : Option α) (%s : Option Nat) : List (Coefs α) :=\n"
+             "  gammatone_sampled %s %s (%s.getD (ofInt %d)) (%s.getD %d)\n\n" % (
+                 ast.unparse(a), freq, bw, phase, eta, freq, bw, phase, dph.value, eta, deta.value))
+    return text, [{"function": "gammatone.sampled", "lean": "ALV.Gen.C13.gammatone_sampled / gammatone_sampled_call",
+                   "names": names}]
+
+
+SCALAR_HEAD = """
+/-! ### scalar functions of lazy_auditory.py, in the vocabulary of ALV/Model/C13.lean and C13Call.lean
+(generic over `[TrigField α]`; `Except.error ()` = the `ValueError`; `LtTest.lt` = Python's `<` on numbers) -/
+section scalar
+variable {α : Type} [TrigField α]
+open ALV.TrigField
+
+"""
+
+
+def translate_scalar(found, tree):
+    t1, i1 = translate_erb(found, tree)
+    t2, i2 = translate_erb_constants(tree)
+    t3, i3 = translate_gammatone_sampled(found)
+    return SCALAR_HEAD + t1 + t2 + t3 + "end scalar\n", i1 + i2 + i3
+
+
 HEADER = """/-
   GENERATED by harness/props/c13_tr.py from audiolazy/lazy_filters.py and audiolazy/lazy_auditory.py of the repo
   under test — do not edit; rewritten on every run of `./check C13`.
 
   One definition per thub-based strategy body, in the vocabulary of ALV/Model/C13Thub.lean (`b` = base of the
   hub identifiers of this call, `hK c` = copy `c` of the K-th hub the call makes).  ALV/Lemmas/C13Src.lean proves
-  each of them equal to the hand transcription the C13 theorems are about (`src_*_is_model`).
+  each of them equal to the hand transcription the C13 theorems are about (`src_*_is_model`).  At the end the
+  scalar functions erb.gm90 / erb.mg83 / gammatone_erb_constants, in the vocabulary of ALV/Model/C13.lean.
 -/
 import ALV.Model.C13Thub
+import ALV.Model.C13Call
 namespace ALV.Gen.C13
 open ALV.C13
 
@@ -550,6 +971,7 @@ open ALV.C13
 def translate(texts):
     """texts: {"lazy_filters": source, "lazy_auditory": source} -> (Lean text, info list)"""
     found = {}
+    trees = {}
     for f in FILES:
         try:
             with warnings.catch_warnings():
@@ -558,6 +980,7 @@ def translate(texts):
         except SyntaxError as e:
             raise TranslationError("%s: %s" % (f, e))
         found[f] = find_strategies(tree, f)
+        trees[f] = tree
     out = [HEADER]
     infos = []
     known = {}
@@ -580,6 +1003,9 @@ def translate(texts):
             out.append("  | %s => [%s %s]\n" % (pat, lean, args))
         else:
             out.append("  | %s => [%s 0 %s]\n" % (pat, lean, args))
+    st, si = translate_scalar(found["lazy_auditory"], trees["lazy_auditory"])
+    out.append(st)
+    infos.extend(si)
     out.append("\nend ALV.Gen.C13\n")
     return "".join(out), infos
 
@@ -619,7 +1045,9 @@ def regenerate(eng=None):
     if eng is not None:
         eng.extra["translated"] = {
             "translator": "harness/props/c13_tr.py -> lean/ALV/Gen/C13Src.lean (shallow: one Lean definition per strategy body, "
-                          "SE expression programs of ALV/Model/C13Thub.lean; theorems src_*_is_model)",
+                          "SE expression programs of ALV/Model/C13Thub.lean; the scalar functions erb.gm90 / erb.mg83 / "
+                          "gammatone_erb_constants as generic [TrigField] definitions in the vocabulary of "
+                          "ALV/Model/C13.lean / C13Call.lean; theorems src_*_is_model)",
             "under_translator": infos,
             "not_translated": [{"function": a, "why": b} for a, b in NOT_TRANSLATED]}
     old = open(path, encoding="utf-8").read() if os.path.exists(path) else None
@@ -650,12 +1078,35 @@ EDITS = [
      "[resonator.poles_exp, resonator.z_exp] * 2", 0),
     ("resonator.freq_z_exp: bandwidth * .5 -> bandwidth * .25", "lazy_filters", "  R = exp(-bandwidth * .5)\n",
      "  R = exp(-bandwidth * .25)\n", 3),
+    ("erb.gm90: 4.37e-3 -> 4.37e-2", "lazy_auditory", "4.37e-3 * fHz", "4.37e-2 * fHz", 0),
+    ("erb.mg83: freq < 7 -> freq < 8", "lazy_auditory", "    if freq < 7:", "    if freq < 8:", 1),
+    ("erb.gm90: Hz = 1 -> Hz = 2 in the None branch", "lazy_auditory", "    Hz = 1\n", "    Hz = 2\n", 0),
+    ("erb.mg83: fHz ** 2 -> fHz ** 3", "lazy_auditory", "fHz ** 2", "fHz ** 3", 0),
+    ("erb.gm90: fHz = freq / Hz moved before the None branch", "lazy_auditory",
+     "  if Hz is None:\n    if freq < 7: # Perhaps user tried something up to 2 * pi\n      raise ValueError(\"Frequency out of range.\")\n    Hz = 1\n  fHz = freq / Hz\n",
+     "  fHz = freq / Hz\n  if Hz is None:\n    if freq < 7: # Perhaps user tried something up to 2 * pi\n      raise ValueError(\"Frequency out of range.\")\n    Hz = 1\n", 0),
+    ("erb.gm90 registered under another first name (the strategy table of the model no longer matches)", "lazy_auditory",
+     '@erb.strategy("gm90", "glasberg_moore_90", "glasberg_moore")', '@erb.strategy("mg83x", "glasberg_moore_90", "glasberg_moore")', 0),
+    ("gammatone_erb_constants: tnt = 2 * n - 2 -> 2 * n - 1", "lazy_auditory", "  tnt = 2 * n - 2\n", "  tnt = 2 * n - 1\n", 0),
+    ("gammatone_erb_constants: 2 ** -tnt -> 2 ** tnt", "lazy_auditory", "2 ** -tnt", "2 ** tnt", 0),
+    ("gammatone_erb_constants: (1. / n) -> (1. / (n - 1))", "lazy_auditory", "2 ** (1. / n)", "2 ** (1. / (n - 1))", 0),
+    ("gammatone.sampled: cos(freq - phase) -> cos(freq + phase)", "lazy_auditory", "A * cos(freq - phase) * z ** -1",
+     "A * cos(freq + phase) * z ** -1", 0),
+    ("gammatone.sampled: diff(n=eta-1) -> diff(n=eta)", "lazy_auditory", ".diff(n=eta-1, mul_after=-z)", ".diff(n=eta, mul_after=-z)", 0),
+    ("gammatone.sampled: f0 not normalised", "lazy_auditory", "  f0 /= abs(f0.freq_response(freq)) # Max gain == 1.0 (0 dB)\n", "", 0),
+    ("gammatone.sampled: [fn] * (eta - 1) -> [fn] * eta", "lazy_auditory", "[f0] + [fn] * (eta - 1)", "[f0] + [fn] * eta", 0),
+    ("gammatone.sampled: default eta=4 -> eta=3", "lazy_auditory", "phase=0, eta=4", "phase=0, eta=3", 0),
+    ("gammatone.sampled: A ** 2 * z ** -2 -> A * z ** -2", "lazy_auditory",
+     "  denominator = 1 - 2 * A * cos(freq) * z ** -1 + A ** 2 * z ** -2\n  filt",
+     "  denominator = 1 - 2 * A * cos(freq) * z ** -1 + A * z ** -2\n  filt", 0),
 ]
 # edits that change no meaning: the Gen DEFINITIONS (comments aside) must stay the same
 HARMLESS = [
     ("lowpass.pole: local variable x renamed, comment and blank line added", "lazy_filters",
      "  x = 2 - cos(cutoff)\n  x = thub(x, 2)\n  R = x - sqrt(x ** 2 - 1)\n",
      "  y = 2 - cos(cutoff)  # auxiliary\n\n  y = thub(y, 2)\n  R = y - sqrt(y ** 2 - 1)\n", 0),
+    ("erb.gm90: literals respelled (24.70, 0.00437, 1.0), comment added", "lazy_auditory",
+     "  result = 24.7 * (4.37e-3 * fHz + 1.)\n", "  result = 24.70 * (0.00437 * fHz + 1.0)  # Hz\n", 0),
 ]
 
 
